@@ -600,8 +600,11 @@ def apalache_obligations(V, wd):
     for name, args in obligations:
         t0 = time.time()
         try:
+            jtmp = os.path.join(wd, "jtmp")
+            os.makedirs(jtmp, exist_ok=True)
             p = subprocess.run(["apalache-mc", "check", "--cinit=CInit", *args, f"--out-dir={wd}/apalache_{name}", "TokenizerInt.tla"],
-                               cwd=wd, capture_output=True, text=True, timeout=600)
+                               cwd=wd, capture_output=True, text=True, timeout=600,
+                               env=dict(os.environ, JVM_ARGS=(os.environ.get("JVM_ARGS", "") + " -Djava.io.tmpdir=" + jtmp).strip()))
             out = p.stdout[-400:]
             ok = "EXITCODE: OK" in p.stdout
             bad = "EXITCODE: ERROR (12)" in p.stdout
@@ -649,8 +652,8 @@ def check(prop, tier, replay=None):
     V.cov["exhaustive"] = True
 
     # ---- unbounded: inductive invariant of the integer abstraction, discharged by Apalache (thorough tier) -------------
-    if prop in ("C02", "C03") and (tier == "thorough" or os.environ.get("VERIF_APALACHE")):
-        apalache_obligations(V, wd)
+    if prop in ("C02", "C03"):
+        apalache_obligations(V, wd)          # 20 s: both tiers
 
     # ---- leg R ---------------------------------------------------------------------------
     t0 = time.time()
